@@ -114,8 +114,8 @@ func devMain(args []string) {
 			continue
 		}
 		for _, f := range fns {
-			if f.TypeParams().Len() > 0 && len(f.TypeArgs()) == 0 {
-				continue // generic body: its instances are verified
+			if f.TypeParams().Len() > 0 && len(f.TypeArgs()) == 0 && len(fns) > 1 {
+				continue // generic body: its instances are verified instead
 			}
 			rep := eng.VerifyFunc(f)
 			if rep.Error != "" {
